@@ -24,8 +24,9 @@ def campaign(rep, pid, tier, seed, failures=False, checkpoints=False):
                             sjwd=(j % 4 != 2), mode=("max" if j % 2 else "min"))
             tr["id"] = len(traces) + 1
             traces.append(tr)
+            end = next((e for e in out["ev"] if e["a"] == "End"), {})
             meta.append({"scheduler": kind, "seed": s, "n_workers": nw, "p_fail": p_fail, "p_ext": p_ext, "delete_checkpoints": delete,
-                         "mode": "max" if j % 2 else "min"})
+                         "mode": "max" if j % 2 else "min", "end_msg": end.get("msg", "")[:120]})
     counts = T.validate_traces(rep, traces, meta, pid, flags, "real-schedulers")
     rep.replays += len(traces)
     rep.extra.setdefault("real_scheduler_runs", {})["kinds"] = R.KINDS + R.GP_KINDS
